@@ -1457,6 +1457,8 @@ func (fr *Frame) execSelect(st *State, i *ssa.Select) {
 		vals = append(vals, fr.havocVal(tup.At(k).Type(), fmt.Sprintf("%srecv%d", fr.name(i), k)))
 	}
 	fr.vals[i] = Val{Tup: vals}
+	// ghost: the chosen case is visible to contracts as ret("select")
+	fr.afterCall(st, "select", vals[0])
 }
 
 func (fr *Frame) execDefer(st *State, i *ssa.Defer) {
